@@ -374,13 +374,13 @@ func NewFECase(g *Gen, id int) *Case {
 			}
 		}
 		var bks []string
-		for k := range vals {
-			if strings.HasSuffix(k, "[]") {
+		for k, vs := range vals {
+			if strings.HasSuffix(k, "[]") || len(vs) >= 2 {
 				bks = append(bks, k)
 			}
 		}
 		sort.Strings(bks)
-		for _, k := range bks { // blank entries between the others of a []-named list
+		for _, k := range bks { // blank entries between the others of a list ([]-named, or a repeated parameter)
 			if vs := vals[k]; len(vs) > 0 && g.R.P(65) {
 				i := g.R.Intn(len(vs))
 				vals[k] = append(append(append([]string{}, vs[:i]...), Pick(g.R, []string{"", " "})), vs[i:]...)
